@@ -67,7 +67,7 @@ Clock ==
           THEN Fail("time_passes_while_the_loop_has_a_tick_to_process")
      ELSE IF tw.on /\ tw.fails = 0 THEN Fail("time_passes_inside_a_store_write")
      ELSE /\ now' = Ev.t /\ UNCHANGED <<tid, l, verdict, relFlip, advTo>>
-          /\ UNCHANGED <<proc, row, nlog, logEnded, loops, gen, active, pactive, timers, eng, tw, start, sfails, faults, inbox, sendpc>>
+          /\ UNCHANGED <<proc, row, nlog, logEnded, loops, gen, active, pactive, timers, eng, tw, start, sfails, faults, inbox, sendpc, relpc>>
 
 MinDue == CHOOSE d \in timers : d <= now /\ \A x \in timers : x <= now => d <= x
 
@@ -95,7 +95,7 @@ Line(e) ==
     [] e.e = "isend" ->
          IF ~(proc = "up" /\ gen \in loops /\ active /\ eng.ended = "none") THEN Fail("internal_send_without_live_loop")
          ELSE /\ eng' = [eng EXCEPT !.imail = @ + 1] /\ Ok /\ UNCHANGED relFlip
-              /\ UNCHANGED <<now, proc, row, nlog, logEnded, loops, gen, active, pactive, timers, tw, start, sfails, faults, inbox, sendpc>>
+              /\ UNCHANGED <<now, proc, row, nlog, logEnded, loops, gen, active, pactive, timers, tw, start, sfails, faults, inbox, sendpc, relpc>>
     [] e.e = "persist" ->
          IF ~(proc = "up" /\ gen \in loops /\ active /\ eng.phase = "reduced") THEN Fail("persist_without_reduced_tick")
          ELSE Persist(e.ends) /\ verdict' = (IF nlog' # e.n THEN "log_length_differs" ELSE "ok")
